@@ -727,7 +727,8 @@ class Response(StreamResponse):
     async def _do_start_compression(self, coding: ContentCoding) -> None:
         if self._chunked or isinstance(self._body, Payload):
             return await super()._do_start_compression(coding)
-        if coding is ContentCoding.identity:
+        if coding is ContentCoding.identity or self._body is None:
+            # (no body: nothing to compress)
             return
         # Instead of using _payload_writer.enable_compression,
         # compress the whole body
